@@ -83,6 +83,8 @@ const FILE = '/p/dir/gen.js'
 const REFS = {
   inline: { url: (m) => 'data:application/json;base64,' + b64(m), usable: true },
   inline_charset: { url: (m) => 'data:application/json;charset=utf-8;base64,' + b64(m), usable: true },
+  inline_charset_more_params: { url: (m) => 'data:application/json;charset=utf-8;name=gen.js.map;base64,' + b64(m), usable: true },
+  inline_charset_upper: { url: (m) => 'data:application/json;CHARSET=UTF-8;base64,' + b64(m), usable: true },
   relative: { url: () => 'gen.js.map', path: '/p/dir/gen.js.map', answer: 'map', usable: true },
   dot_relative: { url: () => './maps/gen.js.map', path: '/p/dir/./maps/gen.js.map', answer: 'map', usable: true },
   up_relative: { url: () => '../gen.js.map', path: '/p/dir/../gen.js.map', answer: 'map', usable: true },
